@@ -321,7 +321,7 @@ Proof.
   destruct U1 as [B1 W1 S1 O1 A1 F1]. destruct U2 as [B2 W2 S2 O2 A2 F2].
   constructor.
   - intros [W B A]. split; [constructor|split; [|split]].
-    + auto.
+    + exact (W2 (W1 W)).
     + intros t' x. rewrite B2, !B1. pose proof (B t' x). pose proof (B t from). pose proof (B t to).
       destruct (token_eqb t t') eqn:E1, (addr_eqb x to) eqn:E2, (addr_eqb x from) eqn:E3,
         (addr_eqb to from) eqn:E4; simpl; beq; subst; rewrite ?token_eqb_refl; simpl; try lia.
@@ -499,13 +499,15 @@ Section Specs.
         s' = s \/ (spender_ok c sender from to /\ spent ONG sender from to (to_v2 v2 value) s s')
     end.
 
-  Lemma decode_states_ok : forall v2 l s s' sts,
-    decode_states v2 l s = (s', Ok sts) -> s' = s /\ Forall (fun x => 0 <= snd x) sts.
+  Lemma decode_states_ok : forall v2 w l s s' sts,
+    decode_states v2 w l s = (s', Ok sts) -> s' = s /\ Forall (fun x => 0 <= snd x) sts.
   Proof.
-    intros v2 l s s' sts H. unfold decode_states in H. mstep H as s0 u0 Hg. minv Hg. minv H.
-    split; [reflexivity|]. rewrite forallb_forall in H0. apply Forall_forall.
-    intros x Hx. apply in_map_iff in Hx. destruct Hx as ([f t v] & <- & Hin). simpl.
-    apply to_v2_nonneg. apply (H0 _ Hin).
+    intros v2 w l s s' sts H. unfold decode_states in H.
+    destruct (negb v2 && w); mstep H as s0 u0 Hg; minv Hg; minv H;
+      (split; [reflexivity|]); rewrite forallb_forall in H0; apply Forall_forall;
+      intros x Hx; apply in_map_iff in Hx; destruct Hx as ([f t v] & <- & Hin); simpl.
+    - pose proof tk_scale_pos. pose proof (Z.mod_pos_bound v two64 eq_refl). nia.
+    - apply to_v2_nonneg. apply (H0 _ Hin).
   Qed.
 
   Lemma ong_invoke_ok : forall c o s s' r,
@@ -618,4 +620,338 @@ Section Specs.
     apply grant_ong_ok in H. destruct H as (S2 & F2).
     split; [eapply summ_trans; eauto|eapply frame_grant_trans; eauto].
   Qed.
+
+  (** ** ONT contract *)
+
+  (** Debits an ONT call may make: ONT of holders that witnessed it, and the ONG pool. *)
+  Definition ont_debits (c : callctx) : token -> addr -> Prop :=
+    fun t a => witnessed c ONT t a \/ pool t a.
+
+  Lemma ont_do_transfer_ok : forall c l s s' r,
+    Forall (fun x => 0 <= snd x) l ->
+    ont_do_transfer unbind deadline c l s = (s', Ok r) ->
+    summ (ont_debits c) pool s s' /\ almap s' ONT = almap s ONT.
+  Proof.
+    intros c l. induction l as [|[[from to] value] l IH]; intros s s' r Hl H; simpl in H.
+    - minv H. split; [apply summ_refl|reflexivity].
+    - inversion Hl as [|? ? Hv Hl']; subst. simpl in Hv.
+      destruct (value =? 0) eqn:E; [eauto|].
+      mstep H as s0 u0 Hg. minv Hg. mstep H as s1 old Ht.
+      apply transfer_ok in Ht; [|assumption]. destruct Ht as (Hw & Mv).
+      mstep H as s2 u2 Hgr. apply grant_both_ok in Hgr. destruct Hgr as (S2 & F2a & F2b).
+      destruct (IH _ _ _ Hl' H) as (S3 & A3).
+      split.
+      + eapply summ_trans; [|eapply summ_trans; [|exact S3]].
+        * eapply summ_weaken; [| |exact (mv_summ _ _ _ _ _ _ Mv)]; [|unfold none; tauto].
+          intros t a (-> & ->). left. split; auto.
+        * eapply summ_weaken; [| |exact S2]; [|tauto]. intros t a Hp. right. exact Hp.
+      + rewrite A3, F2b. apply (mv_allow _ _ _ _ _ _ Mv).
+  Qed.
+
+  (** What one ONT call may do. *)
+  Definition ont_effect (c : callctx) (o : op) (s s' : state) : Prop :=
+    match o with
+    | Transfer _ _ => summ (ont_debits c) pool s s' /\ almap s' ONT = almap s ONT
+    | Approve _ from _ _ =>
+        check_witness c from = true /\ summ none (only ONT from) s s'
+        /\ (forall t, bmap s' t = bmap s t) /\ almap s' ONG = almap s ONG
+    | TransferFrom v2 sender from to value =>
+        s' = s \/ exists s1,
+          spender_ok c sender from to /\ spent ONT sender from to (to_v2 v2 value) s s1
+          /\ summ pool pool s1 s' /\ frame_grant s1 s'
+    end.
+
+  Lemma ont_transfer_from_body : forall c sender from to v s s' r,
+    0 <= v ->
+    (old <- transfered_from deadline c ONT sender from to v ;;
+     grant_both unbind deadline c from to old ;;; ret true) s = (s', Ok r) ->
+    exists s1, spender_ok c sender from to /\ spent ONT sender from to v s s1
+               /\ summ pool pool s1 s' /\ frame_grant s1 s'.
+  Proof.
+    intros c sender from to v s s' r Hv H.
+    mstep H as s1 old Ht. apply transfered_from_ok in Ht; [|assumption]. destruct Ht as (Ha & Sp).
+    mstep H as s2 u2 Hg. minv H. apply grant_both_ok in Hg. destruct Hg as (S2 & F2).
+    exists s1. auto.
+  Qed.
+
+  Lemma ont_invoke_ok : forall c o s s' r,
+    ont_invoke unbind deadline c o s = (s', Ok r) -> ont_effect c o s s'.
+  Proof.
+    intros c o s s' r H. destruct o as [v2 l|v2 from to value|v2 sender from to value]; simpl in H.
+    - mstep H as s0 u0 Hg. minv Hg. mstep H as s1 sts Hd.
+      apply decode_states_ok in Hd. destruct Hd as (-> & Hnn).
+      apply ont_do_transfer_ok in H; assumption.
+    - destruct v2.
+      + mstep H as s0 u0 Hg. minv Hg. mstep H as s1 u1 Hd. minv Hd.
+        mstep H as s2 u2 Hb. minv Hb. mstep H as s3 u3 Hw. minv Hw.
+        mstep H as s4 u4 Hp. minv H. apply put_allow_ok in Hp.
+        simpl. split; [assumption|]. split.
+        * eapply allow_updated_summ; [exact Hp|]. apply (to_v2_nonneg true). assumption.
+        * destruct Hp as [Aa Ax Ab Ao]. split; [exact Ab|]. apply (Ax ONG). discriminate.
+      + mstep H as s1 u1 Hd. minv Hd.
+        mstep H as s2 u2 Hb. minv Hb. mstep H as s3 u3 Hw. minv Hw.
+        mstep H as s4 u4 Hp. minv H. minv Hp.
+        pose proof (set_allow_updated ONT from to (value * tk_scale) s) as Hp.
+        simpl. split; [assumption|]. split.
+        * eapply allow_updated_summ; [exact Hp|]. apply (to_v2_nonneg false). assumption.
+        * destruct Hp as [Aa Ax Ab Ao]. split; [exact Ab|]. apply (Ax ONG). discriminate.
+    - destruct v2.
+      + mstep H as s0 u0 Hg. minv Hg. mstep H as s1 u1 Hd. minv Hd.
+        destruct (value =? 0).
+        * minv H. left. reflexivity.
+        * mstep H as s2 u2 Hb. minv Hb. right.
+          eapply ont_transfer_from_body; [|exact H]. apply (to_v2_nonneg true). assumption.
+      + mstep H as s1 u1 Hd. minv Hd.
+        destruct (value =? 0).
+        * minv H. left. reflexivity.
+        * mstep H as s2 u2 Hb. minv Hb. right.
+          eapply ont_transfer_from_body; [|exact H]. apply (to_v2_nonneg false). assumption.
+  Qed.
+
+  (** * One call as a transaction *)
+
+  Lemma step_ok : forall s k s' b,
+    step unbind deadline s k = (s', Ok b) -> exec unbind deadline k s = (s', Ok b).
+  Proof.
+    intros s k s' b H. unfold step in H. destruct (exec unbind deadline k s) as [sc [b'|e]]; congruence.
+  Qed.
+
+  Lemma step_err : forall s k s' e, step unbind deadline s k = (s', Err e) -> s' = s.
+  Proof.
+    intros s k s' e H. unfold step in H. destruct (exec unbind deadline k s) as [sc [b'|e']]; congruence.
+  Qed.
+
+  (** Failed call: the committed state is untouched (whatever the scratch cache looked like). *)
+  Lemma step_failed_unchanged : forall s k e,
+    snd (step unbind deadline s k) = Err e -> fst (step unbind deadline s k) = s.
+  Proof.
+    intros s k e H. destruct (step unbind deadline s k) as [s' [b|e']] eqn:E; simpl in *; [discriminate|].
+    eapply step_err; eauto.
+  Qed.
+
+  (** The per-call summary every successful call satisfies. *)
+  Definition call_debits (k : call) : token -> addr -> Prop :=
+    fun t a => witnessed_by k a \/ ont_pool k t a
+               \/ exists v2 sender to value, c_op k = TransferFrom v2 sender a to value /\ t = c_tok k.
+  Definition call_grants (k : call) : token -> addr -> Prop :=
+    fun t a => witnessed_by k a \/ ont_pool k t a.
+
+  Lemma spent_summ_self : forall t sender from to v s s',
+    spent t sender from to v s s' -> summ (only t from) none s s'.
+  Proof. intros. eapply sp_summ; eauto. Qed.
+
+  Lemma exec_summ : forall k s s' b,
+    exec unbind deadline k s = (s', Ok b) -> summ (call_debits k) (call_grants k) s s'.
+  Proof.
+    intros [tok c o] s s' b H. unfold exec in H. simpl in H. destruct tok.
+    - apply ont_invoke_ok in H. unfold call_debits, call_grants, witnessed_by, ont_pool; simpl.
+      destruct o as [v2 l|v2 from to value|v2 sender from to value]; simpl in H.
+      + destruct H as (S & _). eapply summ_weaken; [| |exact S].
+        * intros t a [(-> & Hw)|(-> & ->)]; auto.
+        * intros t a (-> & ->). auto.
+      + destruct H as (Hw & S & _). eapply summ_weaken; [| |exact S]; [unfold none; tauto|].
+        intros t a (-> & ->). auto.
+      + destruct H as [->|(s1 & Ha & Sp & S2 & F2)]; [apply summ_refl|].
+        eapply summ_trans.
+        * eapply summ_weaken; [| |exact (sp_summ _ _ _ _ _ _ _ Sp)]; [|unfold none; tauto].
+          intros t a (-> & ->). right. right. exists v2, sender, to, value. auto.
+        * eapply summ_weaken; [| |exact S2]; intros t a (-> & ->); auto.
+    - apply ong_invoke_ok in H. unfold call_debits, call_grants, witnessed_by, ont_pool; simpl.
+      destruct H as (F & H).
+      destruct o as [v2 l|v2 from to value|v2 sender from to value]; simpl in H.
+      + destruct H as (S & _). eapply summ_weaken; [| |exact S]; [|unfold none; tauto].
+        intros t a (-> & Hw); auto.
+      + destruct H as (Hw & S & _). eapply summ_weaken; [| |exact S]; [unfold none; tauto|].
+        intros t a (-> & ->). auto.
+      + destruct H as [->|(Ha & Sp)]; [apply summ_refl|].
+        eapply summ_weaken; [| |exact (sp_summ _ _ _ _ _ _ _ Sp)]; [|unfold none; tauto].
+        intros t a (-> & ->). right. right. exists v2, sender, to, value. auto.
+  Qed.
+
+  Lemma step_summ : forall k s, summ (call_debits k) (call_grants k) s (fst (step unbind deadline s k)).
+  Proof.
+    intros k s. destruct (step unbind deadline s k) as [s' [b|e]] eqn:E; simpl.
+    - apply step_ok in E. eapply exec_summ; eauto.
+    - apply step_err in E. subst. apply summ_refl.
+  Qed.
+
+  Lemma step_inv : forall k s, inv s -> inv (fst (step unbind deadline s k)).
+  Proof. intros k s I. apply (step_summ k s I). Qed.
+
+  Lemma step_sum : forall k s t, inv s -> sumb (fst (step unbind deadline s k)) t = sumb s t.
+  Proof. intros k s t I. apply (step_summ k s I). Qed.
+
+  Lemma step_allowance_authorized : forall k s,
+    inv s -> allowance_authorized k s (fst (step unbind deadline s k)).
+  Proof.
+    intros k s I t o sp Hlt. destruct (step_summ k s I) as (_ & _ & _ & A). exact (A t o sp Hlt).
+  Qed.
+
+  (** The transferFrom case of [debit_authorized] needs the exact accounting. *)
+  Lemma spent_exact : forall t sender from to v s s1,
+    0 <= v -> inv s -> spent t sender from to v s s1 ->
+    forall a, balf s1 t a < balf s t a ->
+      a = from /\ 0 <= allowf s1 t from sender
+      /\ allowf s t from sender - allowf s1 t from sender = balf s t from - balf s1 t from.
+  Proof.
+    intros t sender from to v s s1 Hv I Sp a Hlt.
+    destruct (sp_summ _ _ _ _ _ _ _ Sp I) as (_ & _ & B & _).
+    destruct (B t a Hlt) as (_ & ->). split; [reflexivity|].
+    rewrite (sp_allow _ _ _ _ _ _ _ Sp). rewrite token_eqb_refl.
+    rewrite (keqb_refl pair_eqb pair_eqb_spec). simpl.
+    pose proof (sp_le _ _ _ _ _ _ _ Sp).
+    destruct (N.eq_dec from to) as [E|E].
+    - rewrite (sp_self _ _ _ _ _ _ _ Sp E) in Hlt. lia.
+    - rewrite (sp_exact _ _ _ _ _ _ _ Sp E). lia.
+  Qed.
+
+  Lemma op_value_nonneg : forall c tok v2 sender from to value s s' b,
+    exec unbind deadline (mkCall tok c (TransferFrom v2 sender from to value)) s = (s', Ok b) ->
+    s' = s \/ 0 <= to_v2 v2 value.
+  Proof.
+    intros c tok v2 sender from to value s s' b H. unfold exec in H. simpl in H.
+    destruct tok; simpl in H.
+    - destruct v2.
+      + mstep H as s0 u0 Hg. minv Hg. mstep H as s1 u1 Hd. minv Hd.
+        right. apply (to_v2_nonneg true). assumption.
+      + mstep H as s1 u1 Hd. minv Hd. right. apply (to_v2_nonneg false). assumption.
+    - mstep H as s0 u0 Hg. minv Hg. mstep H as s1 u1 Hd. minv Hd.
+      right. apply to_v2_nonneg. assumption.
+  Qed.
+
+  Lemma exec_debit_authorized : forall k s s' b,
+    inv s -> exec unbind deadline k s = (s', Ok b) -> debit_authorized k s s'.
+  Proof.
+    intros [tok c o] s s' b I H t a Hlt.
+    destruct o as [v2 l|v2 from to value|v2 sender from to value].
+    - (* transfer *)
+      destruct (exec_summ _ _ _ _ H I) as (_ & _ & B & _).
+      destruct (B t a Hlt) as [Hw|[Hp|(v2' & sender & to & value & Hop & _)]]; auto.
+      simpl in Hop. discriminate.
+    - (* approve *)
+      destruct (exec_summ _ _ _ _ H I) as (_ & _ & B & _).
+      destruct (B t a Hlt) as [Hw|[Hp|(v2' & sender & to' & value' & Hop & _)]]; auto.
+      simpl in Hop. discriminate.
+    - (* transferFrom *)
+      pose proof (op_value_nonneg _ _ _ _ _ _ _ _ _ _ H) as Hnn.
+      unfold exec in H. cbn [c_tok c_ctx c_op] in H. destruct tok.
+      + apply ont_invoke_ok in H. simpl in H.
+        destruct H as [->|(s1 & Ha & Sp & S2 & (F2a & F2b))]; [lia|].
+        destruct Hnn as [->|Hnn]; [lia|].
+        destruct t.
+        * (* ONT balance: decided in s -> s1, the grants leave ONT maps alone *)
+          assert (Hb : balf s' ONT a = balf s1 ONT a) by (unfold balf; rewrite F2a; reflexivity).
+          rewrite Hb in Hlt.
+          destruct (spent_exact _ _ _ _ _ _ _ Hnn I Sp a Hlt) as (-> & Hge & Hex).
+          right. right. exists v2, sender, to, value. simpl.
+          assert (Hal : allowf s' ONT from sender = allowf s1 ONT from sender)
+            by (unfold allowf; rewrite F2b; reflexivity).
+          rewrite Hal, Hb. repeat split; auto.
+        * (* ONG balance: untouched in s -> s1, then only the pool may be debited *)
+          assert (Hb : balf s1 ONG a = balf s ONG a).
+          { unfold balf. rewrite (sp_other _ _ _ _ _ _ _ Sp ONG) by discriminate. reflexivity. }
+          destruct (sp_summ _ _ _ _ _ _ _ Sp I) as (I1 & _).
+          destruct (S2 I1) as (_ & _ & B & _).
+          rewrite <- Hb in Hlt. destruct (B ONG a Hlt) as (_ & ->).
+          right. left. repeat split.
+      + apply ong_invoke_ok in H. destruct H as (F & H). simpl in H.
+        destruct H as [->|(Ha & Sp)]; [lia|].
+        destruct Hnn as [->|Hnn]; [lia|].
+        destruct t.
+        * destruct F as (Fb & _). unfold balf in Hlt. rewrite Fb in Hlt. lia.
+        * destruct (spent_exact _ _ _ _ _ _ _ Hnn I Sp a Hlt) as (-> & Hge & Hex).
+          right. right. exists v2, sender, to, value. simpl. repeat split; auto.
+  Qed.
+
+  Lemma step_debit_authorized : forall k s,
+    inv s -> debit_authorized k s (fst (step unbind deadline s k)).
+  Proof.
+    intros k s I. destruct (step unbind deadline s k) as [s' [b|e]] eqn:E; simpl.
+    - apply step_ok in E. eapply exec_debit_authorized; eauto.
+    - apply step_err in E. subst. intros t a Hlt. lia.
+  Qed.
+
+  (** During an ONT call no ONG balance but the ONT contract's own can go down (accrued ONG is
+      paid out of the pool; nobody else's ONG is touched, whoever signed). *)
+  Lemma ont_call_ong_debits_pool_only : forall k s a,
+    inv s -> c_tok k = ONT ->
+    balf (fst (step unbind deadline s k)) ONG a < balf s ONG a -> a = tk_ont_addr.
+  Proof.
+    intros [tok c o] s a I Ht Hlt. simpl in Ht. subst tok.
+    destruct (step unbind deadline s (mkCall ONT c o)) as [s' [b|e]] eqn:E; simpl in Hlt.
+    - apply step_ok in E. unfold exec in E. cbn [c_tok c_ctx c_op] in E. apply ont_invoke_ok in E.
+      destruct o as [v2 l|v2 from to value|v2 sender from to value]; simpl in E.
+      + destruct E as (S & _). destruct (S I) as (_ & _ & B & _).
+        destruct (B ONG a Hlt) as [(Hx & _)|(_ & ->)]; [discriminate|reflexivity].
+      + destruct E as (_ & _ & Hb & _). unfold balf in Hlt. rewrite Hb in Hlt. lia.
+      + destruct E as [->|(s1 & Ha & Sp & S2 & F2)]; [lia|].
+        assert (Hb : balf s1 ONG a = balf s ONG a).
+        { unfold balf. rewrite (sp_other _ _ _ _ _ _ _ Sp ONG) by discriminate. reflexivity. }
+        destruct (sp_summ _ _ _ _ _ _ _ Sp I) as (I1 & _).
+        destruct (S2 I1) as (_ & _ & B & _).
+        rewrite <- Hb in Hlt. destruct (B ONG a Hlt) as (_ & ->). reflexivity.
+    - apply step_err in E. subst. lia.
+  Qed.
+
+  (** * All call sequences *)
+
+  Lemma run_app : forall l1 l2 s, run unbind deadline s (l1 ++ l2) = run unbind deadline (run unbind deadline s l1) l2.
+  Proof. intros. unfold run. apply fold_left_app. Qed.
+
+  Lemma run_snoc : forall l k s,
+    run unbind deadline s (l ++ [k]) = fst (step unbind deadline (run unbind deadline s l) k).
+  Proof. intros. rewrite run_app. reflexivity. Qed.
+
+  Lemma run_inv : forall l s, inv s -> inv (run unbind deadline s l).
+  Proof.
+    induction l as [|k l IH]; intros s I; simpl; [exact I|].
+    apply IH. apply step_inv. exact I.
+  Qed.
+
+  Lemma run_sum : forall l s t, inv s -> sumb (run unbind deadline s l) t = sumb s t.
+  Proof.
+    induction l as [|k l IH]; intros s t I; simpl; [reflexivity|].
+    rewrite IH by (apply step_inv; exact I). apply step_sum. exact I.
+  Qed.
+
+  Lemma run_debit_authorized : forall pre k s,
+    inv s -> debit_authorized k (run unbind deadline s pre) (run unbind deadline s (pre ++ [k])).
+  Proof. intros. rewrite run_snoc. apply step_debit_authorized. apply run_inv. assumption. Qed.
+
+  Lemma run_allowance_authorized : forall pre k s,
+    inv s -> allowance_authorized k (run unbind deadline s pre) (run unbind deadline s (pre ++ [k])).
+  Proof. intros. rewrite run_snoc. apply step_allowance_authorized. apply run_inv. assumption. Qed.
+
+  Lemma run_failed_unchanged : forall pre k s e,
+    snd (step unbind deadline (run unbind deadline s pre) k) = Err e ->
+    run unbind deadline s (pre ++ [k]) = run unbind deadline s pre.
+  Proof. intros. rewrite run_snoc. eapply step_failed_unchanged; eauto. Qed.
 End Specs.
+
+(** * The decidable invariant check is sound *)
+Lemma nodupb_sound : forall l, nodupb l = true -> NoDup l.
+Proof.
+  induction l as [|x r IH]; simpl; intros H; [constructor|].
+  apply andb_true_iff in H. destruct H as (H1 & H2). constructor; auto.
+  intros Hin. apply negb_true_iff in H1.
+  assert (existsb (N.eqb x) r = true) by (apply existsb_exists; exists x; split; [assumption|apply N.eqb_refl]).
+  congruence.
+Qed.
+
+Lemma nonnegb_getd : forall K (keqb : K -> K -> bool) (l : amap K) k,
+  nonnegb l = true -> 0 <= getd keqb l k.
+Proof.
+  intros K keqb l k. unfold getd. induction l as [|[k0 v0] r IH]; simpl; intros H; [lia|].
+  apply andb_true_iff in H. destruct H as (H1 & H2). apply Z.leb_le in H1. simpl in H1.
+  destruct (keqb k k0); auto.
+Qed.
+
+Lemma inv_check_sound : forall s, inv_check s = true -> inv s.
+Proof.
+  intros s H. unfold inv_check in H. rewrite !andb_true_iff in H.
+  destruct H as (((((H1 & H2) & H3) & H4) & H5) & H6).
+  constructor.
+  - intros []; simpl; apply nodupb_sound; assumption.
+  - intros [] a; unfold balf; simpl; apply nonnegb_getd; assumption.
+  - intros [] o sp; unfold allowf; simpl; apply nonnegb_getd; assumption.
+Qed.
